@@ -25,6 +25,10 @@ pub enum Role {
     OverrideArrayElem,
     /// element of an array of arrays in a storage buffer
     NestedArrayElem,
+    /// type of a module-scope `const` (a value known to the shader only: no Rust struct)
+    ModuleConst,
+    /// element type of a module-scope `const` array
+    ModuleConstArrayElem,
 }
 use Role::*;
 
@@ -45,7 +49,7 @@ pub enum Shape {
 impl Shape {
     pub fn roles(self) -> &'static [Role] {
         match self {
-            Shape::Plain => &[Uniform, Storage, Workgroup, Private, PushConstant, FixedArrayElem, RtArrayElem, HelperParam, Local, OverrideArrayElem, NestedArrayElem],
+            Shape::Plain => &[Uniform, Storage, Workgroup, Private, PushConstant, FixedArrayElem, RtArrayElem, HelperParam, Local, OverrideArrayElem, NestedArrayElem, ModuleConst, ModuleConstArrayElem],
             Shape::VertexIn => &[VertexParam, Uniform, Storage, HelperParam, Local, RtArrayElem],
             Shape::Varying => &[VertexResult, FragmentParam, Uniform, Storage, Private, Local],
             Shape::Located => &[VertexParam, FragmentParam, FragmentResult, Storage, Workgroup, FixedArrayElem],
@@ -158,6 +162,8 @@ pub fn build(defs: &[SDef], key: String) -> Prog {
                     binding += 1;
                     globals_roots.push(i);
                 }
+                ModuleConst => src.push_str(&format!("const mc{i} = {name}();\n")),
+                ModuleConstArrayElem => src.push_str(&format!("const mca{i} = array<{name}, 2>({name}(), {name}());\n")),
                 HelperParam => helpers.push_str(&format!("fn helper{i}(x: {name}) -> f32 {{ return 1.0; }}\n")),
                 Local => locals.push_str(&format!("    var l{i}: {name};\n")),
                 VertexParam => {
@@ -321,12 +327,41 @@ fn sharing_space() -> Vec<Prog> {
     out
 }
 
+/// Many struct types: a root in a storage buffer whose members are N other structs (every second one through an
+/// array), with an unused struct declared before each of them; N around 64 / 128 / 256.
+fn wide_types_space() -> Vec<Prog> {
+    let mut out = vec![];
+    for n in [16usize, 63, 64, 65, 128, 129, 257] {
+        let mut src = String::new();
+        let mut expected = BTreeSet::new();
+        let mut members = String::new();
+        for i in 0..n {
+            src.push_str(&format!("struct Unused{i} {{ z: f32 }};\nstruct Part{i} {{ a: vec4<f32> }};\n"));
+            if i % 2 == 0 {
+                members.push_str(&format!("    p{i}: Part{i},\n"));
+            } else {
+                members.push_str(&format!("    p{i}: array<Part{i}, 2>,\n"));
+            }
+            expected.insert(format!("Part{i}"));
+        }
+        src.push_str(&format!("struct WideRoot {{\n{members}}};\n@group(0) @binding(0) var<storage, read> wide_root: WideRoot;\n@compute @workgroup_size(1) fn cs_main() {{\n}}\n"));
+        expected.insert("WideRoot".to_string());
+        out.push(Prog { key: format!("wide-types|n={n}"), src, expected, steps: n as u64 });
+    }
+    out
+}
+
 pub fn space(thorough: bool) -> Vec<Prog> {
     let mut out = sharing_space();
+    out.extend(wide_types_space());
     // (1) one struct of every shape with every role subset (full power set)
     for shape in [Shape::Plain, Shape::VertexIn, Shape::Varying, Shape::Located, Shape::ComputeIn] {
         for roles in subsets_upto(shape.roles(), usize::MAX) {
             if roles.iter().filter(|r| **r == PushConstant).count() > 1 {
+                continue;
+            }
+            // quick: role sets of size <= 3 and the full set; thorough: the whole power set
+            if !thorough && roles.len() > 3 && roles.len() != shape.roles().len() {
                 continue;
             }
             let key = format!("single|{shape:?}|{roles:?}");
@@ -443,7 +478,7 @@ pub fn run(tier: &str) -> i32 {
     }
     rep.traces_validated = rep.evaluations;
     rep.rule = format!(
-        "(1) one struct of each of 5 member shapes with every subset of its admissible roles (uniform/storage/workgroup/private/push-constant variable, fixed/runtime array element, helper parameter, local, vertex/fragment/compute parameter, vertex/fragment result); (2) pairs of IO-shaped structs with role subsets of size <=2; (3) every nesting DAG on <= {} plain structs x one-or-no role per struct x nesting by member / by array member; (4) IO-shaped structs nested in a plain host struct; (5) entry-parameter structs shared by 2..3 entries of one stage in every adjacent / non-adjacent pattern. Two variables and two fragment entries share each struct. Programs naga rejects are outside the universe (counted in filtered_out). Oracle: reachability reference; observed: multiset of top-level struct names.",
+        "(1) one struct of each of 5 member shapes with every subset (quick: subsets of size <= 3 and the full set) of its admissible roles (uniform/storage/workgroup/private/push-constant variable, fixed/runtime array element, helper parameter, local, module-scope const value / const array element, element of an override-sized array / of an array of arrays, vertex/fragment/compute parameter, vertex/fragment result); (2) pairs of IO-shaped structs with role subsets of size <=2; (3) every nesting DAG on <= {} plain structs x one-or-no role per struct x nesting by member / by array member; (4) IO-shaped structs nested in a plain host struct; (5) entry-parameter structs shared by 2..3 entries of one stage in every adjacent / non-adjacent pattern. Two variables and two fragment entries share each struct. Programs naga rejects are outside the universe (counted in filtered_out). Oracle: reachability reference; observed: multiset of top-level struct names.",
         if rep.thorough() { 4 } else { 3 }
     );
     let filtered: u64 = rep.filtered_out.values().sum();
